@@ -333,10 +333,17 @@ func ruleSentinel(c *Ctx) {
 	setField := p.Fn("lua", "(*LState).SetField")
 	lsCall := p.Fn("lua", "(*LState).Call")
 	asBool := p.Fn("lua", "LVAsBool")
+	// the sentinel: a package-level object (the pinned tree) or the per-state object kept in Global (F106);
+	// as a value: a load from that global, or (a MakeInterface of) a load of that field
 	sentinel, _ := p.SPkg("lua").Members["loopdetection"].(*ssa.Global)
+	sentF := p.Field("lua", "Global", "loopDetection")
 	isSentinel := func(v ssa.Value) bool {
-		u, ok := stripMI(v).(*ssa.UnOp)
-		return ok && u.X == ssa.Value(sentinel)
+		v = stripMI(v)
+		if _, ok := loadsField(v, sentF); ok && sentF != nil {
+			return true
+		}
+		u, ok := v.(*ssa.UnOp)
+		return ok && sentinel != nil && u.X == ssa.Value(sentinel)
 	}
 	// cache lookup: GetField(loaded, name) whose result feeds LVAsBool
 	var cacheTest *ssa.Call
